@@ -183,6 +183,11 @@ class Client:
                     raise Error("Connection closed by server")
                 if m.group(1) == b"NO":
                     self.__parse_error(m.group(2))
+                elif m.group(2) is not None:
+                    # a text sent as a literal belongs to this response too
+                    size = re.search(rb"\{(\d+)\+?\}$", m.group(2))
+                    if size is not None:
+                        self.__read_block(int(size.group(1)) + 2)
                 raise Response(m.group(1), m.group(2))
         return ret
 
